@@ -221,3 +221,18 @@ Fixpoint nearest (P : contents -> bool) (pre : list str) (c0 : contents) (lv : l
 (* names allowed for the directories of a chain: path components other than the reserved names *)
 Definition plain_name (n : str) : Prop :=
   n <> [] /\ ~ In SLASH n /\ n <> [DOT] /\ n <> dotdot /\ n <> REGAL /\ n <> REGAL_YAML.
+
+Definition names (lv : levels) : list str := map fst lv.
+
+(* the path handed to FindConfig: the deepest directory of the chain, or a file in it *)
+Definition start_path (lv : levels) (file : option str) : str :=
+  path_of_names (names lv ++ match file with Some f => [f] | None => [] end).
+
+Definition file_ok (file : option str) : Prop :=
+  match file with Some f => plain_name f | None => True end.
+
+Definition none_hold (lv : levels) : Prop := Forall (fun l => holds (snd l) = false) lv.
+
+Definition no_empty_regal_dir (c : contents) : Prop := c_regal c <> RDir false.
+
+Definition both_kinds := {| c_regal := RDir true; c_yaml := YIsFile |}.
